@@ -66,7 +66,18 @@ pub fn bytes_to_words(bytes: &[u8]) -> &[u64] {
 ///
 /// Panics if `bytes.len()` is not a multiple of 8.
 pub fn bytes_to_words_vec(bytes: &[u8]) -> Vec<u64> {
-    bytes_to_words(bytes).to_vec()
+    assert!(
+        bytes.len() % 8 == 0,
+        "byte slice length must be a multiple of 8, got {}",
+        bytes.len()
+    );
+    // Decode word by word rather than casting the slice: a `&[u8]` (e.g. a
+    // `Vec<u8>` read from a file, or a sub-slice after a header) is only
+    // guaranteed 1-byte alignment, and the result is owned anyway.
+    bytes
+        .chunks_exact(8)
+        .map(|chunk| u64::from_ne_bytes(chunk.try_into().expect("chunks_exact(8)")))
+        .collect()
 }
 
 /// Try to read u64 words from raw bytes.
